@@ -1,12 +1,14 @@
 import Lean.Data.Json
 import QV.Drive.C09
+import QV.Drive.C10
 /-! `qvdriver`: one JSON request per input line, one JSON reply per output line. -/
 open Lean
 
 def dispatch (j : Json) : Except String Json := do
   let op ← j.getObjValAs? String "op"
   let handlers : List (String → Json → Option (Except String Json)) := [
-    QV.Drive.C09.handle
+    QV.Drive.C09.handle,
+    QV.Drive.C10.handle
   ]
   for h in handlers do
     if let some r := h op j then return ← r
